@@ -48,6 +48,7 @@ def floors(tier):
           'ev:density_integrates_to_one': 40 * (1 if tier == 'quick' else 6),
           'ev:postprocess_inverse': 250 * k,
           'ev:log_det_jacobian_large_x': 250 * k,
+          'ev:float32_scale_and_log_prob': 250 * k,
           'ev:ppo_stochastic': 20 * (1 if tier == 'quick' else 10),
           'ev:ppo_deterministic': 20 * (1 if tier == 'quick' else 10)}
 
@@ -183,6 +184,32 @@ def run(job, mon):
                 ent.shape == bshape and
                 (np.abs(ent - ref_ent) <= TOL * (1 + np.abs(ref_ent))).all(),
                 lambda: wit(entropy=ent, ref=ref_ent))
+      # float32, as shipped without x64: the scale floor and log-prob must
+      # survive small min_std and very negative raw scale parameters
+      ms32 = float(rng.choice([1e-6, 1e-5, 1e-3]))
+      with jax.enable_x64(False):
+        d32 = distribution.NormalTanhDistribution(
+            event_size=ev, min_std=ms32, var_scale=var_scale)
+        p32 = jp.asarray(params, dtype=jp.float32)
+        sc32 = np.asarray(d32.create_dist(p32).scale, dtype=np.float64)
+        xn32 = jp.asarray(loc + (softplus(raw) + ms32) * var_scale
+                          * rng.normal(size=loc.shape), dtype=jp.float32)
+        lp32 = np.asarray(d32.log_prob(p32, xn32), dtype=np.float64)
+      ref_sc32 = (softplus(np.asarray(p32, np.float64)[..., ev:]) + ms32
+                  ) * var_scale
+      ref_lp32, _ = ref_log_prob(np.asarray(p32, np.float64)[..., :ev],
+                                 np.asarray(p32, np.float64)[..., ev:],
+                                 np.asarray(xn32, np.float64), ms32, var_scale)
+      e32 = float((np.abs(sc32 - ref_sc32) / ref_sc32).max())
+      mon.err('float32_scale_rel', e32)
+      mon.count('ev:float32_scale_and_log_prob', nelem - 1)
+      mon.check('float32_scale_and_log_prob',
+                e32 <= 1e-4 and (sc32 >= ms32 * var_scale * (1 - 1e-5)).all()
+                and np.isfinite(lp32).all()
+                and (np.abs(lp32 - ref_lp32) <= 2e-2 * (1 + np.abs(ref_lp32))
+                     ).all(),
+                lambda: wit(min_std32=ms32, scale32=sc32, ref_scale=ref_sc32,
+                            log_prob32=lp32, ref_log_prob=ref_lp32))
       y = rng.uniform(-0.999, 0.999, loc.shape)
       back = np.asarray(d.postprocess(d.inverse_postprocess(jp.array(y))))
       fwd = np.asarray(d.inverse_postprocess(d.postprocess(jp.array(
